@@ -392,5 +392,4 @@ func init() {
 		}
 		return sp
 	}
-	engines["C15"] = checkG1
 }
